@@ -115,15 +115,26 @@ func (vc *VC) atomicMethod(st *State, rt, name string, recvExpr ast.Expr, call *
 	}
 	p.typ = p.typ // leaf
 	read := func() string {
+		vc.inAtomic++
+		defer func() { vc.inAtomic-- }()
 		if vc.atomicStable() {
 			return vc.loadPlace(st, p).(*Scalar).T
 		}
-		vc.loadPlace(st, p) // access hook
+		cur := vc.loadPlace(st, p).(*Scalar).T // access hook
 		v := vc.declare("atomic."+name, s)
 		vc.atomInv(st, p, v, s, false, call.Pos())
+		if p.kind == pHeap {
+			if rule, ok, _ := guardOf(p.owner + p.path); ok && rule == gAtomicSW {
+				// written only under the shard write lock: stable while this goroutine holds a shard lock
+				// (A-SHARDLOCK: it is the lock of the entry's home shard), or while the object is fresh
+				return vc.define("atomic."+name, s, ite(or(vc.anyHeld(st, "RBMutex", true), vc.freshRef(p.ref)), cur, v))
+			}
+		}
 		return v
 	}
 	write := func(v string) {
+		vc.inAtomic++
+		defer func() { vc.inAtomic-- }()
 		vc.atomInv(st, p, v, s, true, call.Pos())
 		vc.storePlace(st, p, sc(v, s))
 	}
@@ -163,6 +174,8 @@ func (vc *VC) atomicFunc(st *State, name string, call *ast.CallExpr) Val {
 	}
 	p := pv.P
 	s := vc.sortOf(p.typ)
+	vc.inAtomic++
+	defer func() { vc.inAtomic-- }()
 	read := func() string {
 		if vc.atomicStable() {
 			return vc.loadPlace(st, p).(*Scalar).T
@@ -229,50 +242,54 @@ func (vc *VC) lockHeld(st *State, e ast.Expr, readMode bool) string {
 func (vc *VC) lockOp(st *State, recvExpr ast.Expr, op string, call *ast.CallExpr) {
 	id, ref := vc.lockIdent(st, recvExpr)
 	vc.evalArgs(st, call)
+	owner := vc.ownerOfLockExpr(st, recvExpr)
 	hw, hr := "lockW<"+id+">", "lockR<"+id+">"
+	aw, ar := "anyW<"+id+">", "anyR<"+id+">"
 	srt := ArrSort(SRef, SBool)
 	w := vc.heapGet(st, hw, srt)
 	r := vc.heapGet(st, hr, srt)
 	switch op {
 	case "Lock":
 		vc.oblige(st, "lock", "acquire", call.Pos(), and(not(sel(w, ref)), not(sel(r, ref))), "lock "+id+" must not already be held by this goroutine (self-deadlock)")
+		vc.oblige(st, "lock", "acquire", call.Pos(), not(vc.heapGet(st, aw, SBool)), "at most one "+id+" is held in write mode at a time")
 		vc.lockOrder(st, id, ref, call.Pos())
 		vc.heapSet(st, hw, srt, store(w, ref, "true"))
+		vc.heapSet(st, aw, SBool, "true")
 		vc.onAcquire(st, id, ref, true)
+		vc.lockAcquired(st, id, true, owner, call.Pos())
 	case "RLock":
 		vc.oblige(st, "lock", "acquire", call.Pos(), not(sel(w, ref)), "read lock "+id+" must not be taken while holding it in write mode")
 		vc.lockOrder(st, id, ref, call.Pos())
 		vc.heapSet(st, hr, srt, store(r, ref, "true"))
+		vc.heapSet(st, ar, SBool, "true")
 		vc.onAcquire(st, id, ref, false)
+		vc.lockAcquired(st, id, false, owner, call.Pos())
 	case "Unlock":
 		vc.oblige(st, "lock", "release", call.Pos(), sel(w, ref), "unlock of "+id+" requires the lock to be held")
 		vc.onRelease(st, id, ref, true, call.Pos())
+		vc.lockReleased(st, id, true, owner, call.Pos())
 		vc.heapSet(st, hw, srt, store(w, ref, "false"))
+		vc.heapSet(st, aw, SBool, "false")
 	case "RUnlock":
 		vc.oblige(st, "lock", "release", call.Pos(), sel(r, ref), "read-unlock of "+id+" requires the read lock to be held")
 		vc.onRelease(st, id, ref, false, call.Pos())
+		vc.lockReleased(st, id, false, owner, call.Pos())
 		vc.heapSet(st, hr, srt, store(r, ref, "false"))
+		vc.heapSet(st, ar, SBool, "false")
 	case "TryLock", "TryRLock":
 		panic(unsupported("TryLock"))
 	}
 }
 
-// lock order: policyMu before any shard lock; Group.mu never with another lock.
+// lock order: policyMu before any shard lock; Group.mu is a leaf lock (nothing is acquired while it is held).
 func (vc *VC) lockOrder(st *State, id, ref string, pos token.Pos) {
-	if !vc.lockTrack {
-		return
-	}
-	srt := ArrSort(SRef, SBool)
 	switch id {
 	case "Store.policyMu":
-		// must not hold any shard lock
-		w := vc.heapGet(st, "lockW<RBMutex>", srt)
-		r := vc.heapGet(st, "lockR<RBMutex>", srt)
-		vc.oblige(st, "lock", "order", pos, fmt.Sprintf("(forall ((m Ref)) (and (not (select %s m)) (not (select %s m))))", w, r),
+		vc.oblige(st, "lock", "order", pos, not(vc.anyHeld(st, "RBMutex", true)),
 			"policy lock must be taken before (never while holding) a shard lock")
-	case "Group.mu":
-		w := vc.heapGet(st, "lockW<RBMutex>", srt)
-		vc.oblige(st, "lock", "order", pos, fmt.Sprintf("(forall ((m Ref)) (not (select %s m)))", w), "singleflight lock is a leaf lock")
+	}
+	if id != "Group.mu" {
+		vc.oblige(st, "lock", "order", pos, not(vc.anyHeld(st, "Group.mu", false)), "singleflight lock is a leaf lock: no lock is acquired while it is held")
 	}
 }
 
@@ -321,14 +338,14 @@ type blockSite struct {
 
 // accessHook: called on every heap leaf access (C19 lock obligations hook in here).
 func (vc *VC) accessHook(st *State, p place, sub string, write bool) {
-	if vc.specMode || !vc.lockTrack {
+	if vc.specMode {
 		return
 	}
 	vc.guardCheck(st, p, sub, write)
 }
 
 func (vc *VC) mapAccessHook(st *State, m string, mt *types.Map, write bool) {
-	if vc.specMode || !vc.lockTrack {
+	if vc.specMode {
 		return
 	}
 	vc.guardCheckMap(st, m, mt, write)
